@@ -24,10 +24,24 @@ def harness_acq(tier, **kw):
     return {"h_acq.rs": text}, names
 
 
+SMALL_PANIC_SHAPES = ("s_m", "s_r", "po_m", "po_r", "po_bx", "po_rt", "bx_mr", "rt_mr", "rf_mr", "ow_mr", "ow_rr", "n_rt_ow")
+
+
+def with_user_panics(files, tier):
+    """adds the user-panic entries (caught unwind) of a small set of shapes: 'returned or unwound'"""
+    from harness import props
+    text, names = props.gen_panic(tier, "user", kinds=lambda sh: sh.name in SMALL_PANIC_SHAPES)
+    files = dict(files)
+    files["h_panic.rs"] = text
+    return files
+
+
 def c13(tier, seed):
     files, names = harness_acq(tier, envs=("q",), only_try=True)
+    # a caught user panic leaves a quiescent state too: the locks must be try-lockable again (M_LEAK = "not re-acquirable")
+    files = with_user_panics(files, tier)
     return checks.run_mirsym_property(
-        "C13", tier, seed, files, codes("M_TRY_VERDICT", "M_STATE_CHANGED", "M_BLOCKING_IN_TRY"),
+        "C13", tier, seed, files, codes("M_TRY_VERDICT", "M_STATE_CHANGED", "M_BLOCKING_IN_TRY", "M_LEAK"),
         assumptions=sys_assumptions + ["quiescent environment: other threads' holdings are a symbolic pre-state that does not change during the call"],
         bounds={"collection_sizes": "1..3 (quick) / 1..4 (thorough)", "nesting_depth": 2, "universe_locks": 6,
                 "pre_state": "every assignment of {free, read-held, write-held by another thread} to the leaves (symbolic)",
@@ -69,8 +83,9 @@ def c05(tier, seed):
 def c03(tier, seed):
     files, names = harness_acq(tier, envs=("a",))
     files = with_sequences(files, tier, seed)
+    files = with_user_panics(files, tier)
     return checks.run_mirsym_property(
-        "C03", tier, seed, files, codes("M_HELD_AT_API_BEGIN", "M_HELD_AT_KEY_BACK", "M_SELF_WAIT", "M_KEY_MODEL"),
+        "C03", tier, seed, files, codes("M_HELD_AT_API_BEGIN", "M_HELD_AT_KEY_BACK", "M_SELF_WAIT", "M_KEY_MODEL", "M_LEAK"),
         assumptions=sys_assumptions, bounds=BOUNDS)
 
 
